@@ -11,7 +11,7 @@ from common import Driver, DriverFailure, hx
 LEVEL = "proof"
 MANIFEST = dict(
     text="Lean 4 theorems for every item satisfying the decidable Item.WF (all shipped items except the 3 of finding D9, by C18's whole-table evaluation), every 1024-byte block and every domain value: write-then-read returns the value (read_after_write + per-kind corollaries), only bits of the item's own field change (write_touches_only_own_field), items with a disjoint field keep their value (other_items_unchanged), read-only items refuse, string forms, and the blocking/awaitable paths emit identical writes. The shift/mask/merge arithmetic is translated from accessor.py on every run; type dispatch / labels / time format are a hand model tied by a differential correspondence on the real accessors (thorough: all 20 505 items)."
-         ' Since session 3: adversarial prior contents for bit fields (the whole field equals the integer about to be merged in, and its complement) and a no-write oracle. Session 4: every stored word of a window (0..1099 plus a seeded sample of the rest) of the writable temperature items of two shipped pairs is presented in both units and written back through the blocking and the awaitable path: the device write must carry that word. Items whose labels are unusual as text (blank, padded, case twins, numeric-looking) are always chosen; an error on an in-domain write to a writable item is a violation. Session 5: write_paths_are_the_same_code (the awaitable write methods of an item and of the structure, with their one await turned into a call, ARE the blocking ones, as skeletons regenerated from the source), write_paths_keep_no_state, every_write_is_handed_over; histories of writes on one long-lived structure whose hand-off fails or is cancelled, then the same write again (twice), two under way together: every call emits the blocking path\'s write. blocking_write_refines_awaitable / blocking_temperature_write_refines_awaitable: every trace of the blocking write is the image of a trace of the awaitable one (twin_refines, rassoc_equiv in Proofs/CoopEquiv.lean).',
+         ' Since session 3: adversarial prior contents for bit fields (the whole field equals the integer about to be merged in, and its complement) and a no-write oracle. Session 4: every stored word of a window (0..1099 plus a seeded sample of the rest) of the writable temperature items of two shipped pairs is presented in both units and written back through the blocking and the awaitable path: the device write must carry that word. Items whose labels are unusual as text (blank, padded, case twins, numeric-looking) are always chosen; an error on an in-domain write to a writable item is a violation. Session 5: write_paths_are_the_same_code (the awaitable write methods of an item and of the structure, with their one await turned into a call, ARE the blocking ones, as skeletons regenerated from the source), write_paths_keep_no_state, every_write_is_handed_over; histories of writes on one long-lived structure whose hand-off fails or is cancelled, then the same write again (twice), two under way together: every call emits the blocking path\'s write. blocking_write_refines_awaitable / blocking_temperature_write_refines_awaitable: every trace of the blocking write is the image of a trace of the awaitable one (twin_refines, rassoc_equiv in Proofs/CoopEquiv.lean). Round 14: the same writes through the real client path (c13.pending_report_scenarios: two writes behind a slow exchange, a change of mind before the spa\'s report).',
     note="Trusted: Lean kernel; translator for the three arithmetic expressions; the correspondence harness; 'applied to the block' = the spa stores struct.pack of the value at pos (as the bundled simulator does). Temperature items' unit conversion is C14.",
     technique='Lean 4 bit-level proofs (Nat.testBit) over source-translated merge arithmetic + differential correspondence of the hand model on all shipped items',
     design='5/C02',
@@ -571,6 +571,14 @@ def run(ctx):
         write_histories(ctx, rng, chosen, illformed)
     except Exception as e:  # noqa
         ctx.obligation_broken("harness:write-histories", f"{type(e).__name__}: {e}")
+    # ---------- the same writes through the REAL client path (manager -> `_connect` -> accessor -> the spa's set-value callback -> protocol):
+    #            two writes under way together, a write back to what the mirror still shows - the spa must receive what the items computed
+    try:
+        from props import c13
+        from common import REPO as _REPO
+        c13.pending_report_scenarios(ctx, str(_REPO / "tests" / "snapshots" / "inYT-Pump1Hi-2020-12-13 11_19_35.snapshot"), "real-path", with_shared_word=False)
+    except Exception as e:  # noqa
+        ctx.violation(f"real-path:raised:{type(e).__name__}", {"kind": "pending-report", "snapshot": "inYT-Pump1Hi-2020-12-13 11_19_35.snapshot"}, "the scenario runs", f"{type(e).__name__}: {e}")
     # ---------- correspondence: the Lean model must predict every answer ----------
     try:
         model = Driver("Driver/C02.lean").run(lines)
@@ -604,6 +612,12 @@ def run(ctx):
 
 
 def replay(inp):
+    if inp.get("kind") == "pending-report":
+        from props import c13
+        from common import Ctx, REPO as _REPO
+        c = Ctx("C02", "quick", 0)
+        c13.pending_report_scenarios(c, str(_REPO / "tests" / "snapshots" / inp["snapshot"]), "real-path", with_shared_word=False)
+        return bool(c.violations), c.violations[0]["observed"] if c.violations else "the spa received what the items computed"
     if inp.get("kind") == "write-history":
         return replay_write_history(inp)
     if inp.get("kind") == "temp":
